@@ -659,6 +659,10 @@ class MapLoopSpec:
     def havoc(self, L, env, names):
         return None
 
+    def kernel(self, L, env, k):
+        """obligations establishing pd at the key just processed (may use the iteration's locals); default: pd itself"""
+        return self.pd(L, env, k)
+
     def sums(self, L, env):
         """summand arrays f of the fold facts  acc == SUM(done, f): the engine unfolds the definition of SUM for them"""
         return []
@@ -682,6 +686,16 @@ def _typed_havoc(L, name, v):
     if isinstance(v, Region):
         raise Unmodelled('havoc of a region requires a loop spec')
     return v       # objects (self, views, stubs): heap effects are governed by the loop spec
+
+
+class _quiet:
+    """spec-side evaluation: no definedness obligations"""
+
+    def __enter__(self):
+        ctx().quiet += 1
+
+    def __exit__(self, *a):
+        ctx().quiet -= 1
 
 
 class MapLoop:
@@ -716,8 +730,15 @@ class MapLoop:
         c = ctx()
         for n, f in self.spec.scal(self, env, done):
             c.assume(f)
-        add_universal(lambda k: z3.Implies(z3.Select(done, k), z3.And(z3.Select(self.dom, k), *[f for _, f in self.spec.pd(self, env, k)])))
-        add_universal(lambda k: z3.Implies(z3.Select(self.dom, k), z3.And(z3.BoolVal(True), *[f for _, f in self.spec.pw(self, env, k)])))
+        def u1(k):
+            with _quiet():
+                return z3.Implies(z3.Select(done, k), z3.And(z3.Select(self.dom, k), *[f for _, f in self.spec.pd(self, env, k)]))
+
+        def u2(k):
+            with _quiet():
+                return z3.Implies(z3.Select(self.dom, k), z3.And(z3.BoolVal(True), *[f for _, f in self.spec.pw(self, env, k)]))
+        add_universal(u1)
+        add_universal(u2)
 
     def more(self, env):
         self.env1 = dict(env)
@@ -745,11 +766,15 @@ class MapLoop:
             c.assume(SUM(done2, f) == SUM(self.done, f) + z3.Select(f, self.k))
         for n, f in self.spec.scal(self, env, done2):
             c.ob('#%s:preserved/%s' % (self._short(), n), f, kind='A')
-        for n, f in self.spec.pd(self, env, self.k):
+        with _quiet():
+            kern = self.spec.kernel(self, env, self.k)
+        for n, f in kern:
             c.ob('#%s:kernel/%s' % (self._short(), n), f, kind='P')
         w = fresh_key('frame_w')
         pre = [w != self.k, z3.Select(self.done, w)]
-        for n, f in self.spec.pd(self, env, w):
+        with _quiet():
+            fr = self.spec.pd(self, env, w)
+        for n, f in fr:
             c.ob('#%s:frame/%s' % (self._short(), n), f, kind='A', extra=pre)
         raise Abort()
 
